@@ -116,6 +116,19 @@ impl LibraryRenderer {
         self.buffer.push_str(val);
     }
 
+    /// Writes the statements of a body that must hold at least one statement;
+    /// a body without any is written as the empty statement.
+    fn write_required_body(&mut self, body: &[dsl::textual::StmtKind]) -> Result<(), Diagnostic> {
+        if body.is_empty() {
+            self.write_ws(";");
+            self.newline();
+        }
+        for item in body.iter() {
+            self.visit_stmt_kind(item)?;
+        }
+        Ok(())
+    }
+
     fn newline(&mut self) {
         self.buffer.push('\n');
     }
@@ -1334,9 +1347,7 @@ impl Visitor<Diagnostic> for LibraryRenderer {
         self.newline();
 
         self.indent();
-        for item in node.body.iter() {
-            self.visit_stmt_kind(item)?;
-        }
+        self.write_required_body(&node.body)?;
         self.outdent();
 
         self.write_ws("UNTIL");
@@ -1392,9 +1403,7 @@ impl Visitor<Diagnostic> for LibraryRenderer {
         self.newline();
 
         self.indent();
-        for item in node.body.iter() {
-            self.visit_stmt_kind(item)?;
-        }
+        self.write_required_body(&node.body)?;
         self.outdent();
 
         Ok(())
@@ -1473,9 +1482,7 @@ impl Visitor<Diagnostic> for LibraryRenderer {
         self.newline();
 
         self.indent();
-        for item in node.body.iter() {
-            self.visit_stmt_kind(item)?;
-        }
+        self.write_required_body(&node.body)?;
         self.outdent();
 
         self.write_ws("END_FOR");
@@ -1492,9 +1499,7 @@ impl Visitor<Diagnostic> for LibraryRenderer {
         self.newline();
 
         self.indent();
-        for item in node.body.iter() {
-            self.visit_stmt_kind(item)?;
-        }
+        self.write_required_body(&node.body)?;
         self.outdent();
 
         self.write_ws("END_WHILE");
